@@ -64,16 +64,16 @@ package util
 //@   ensures[C12.nonempty C01 C05] len(input) > 0 ==> len(result) > 0
 //@   ensures[fresh] arrayOf(result) == 0 || fresh(arrayOf(result))
 //@   modifies nothing
-//@   loop 1 "for _, key := range keys"
-//@     invariant -1 <= rangeindex && rangeindex < len(keys) && (arrayOf(result) == 0 || arrayOf(result) >= old(W)) && (len(result) == 0 ==> cap(result) == 0)
-//@     invariant strictlyAsc(keys) && (len(result) == 0 || arrayOf(result) != arrayOf(keys))
-//@     invariant forall j :: 0 <= j && j < len(keys) ==> keys[j] in input
-//@     invariant forall k :: k in input ==> exists j :: 0 <= j && j < len(keys) && keys[j] == k
-//@     invariant (rangeindex == -1 ==> lastDistinctOutput == -1 && len(result) == 0) && (rangeindex >= 0 ==> lastDistinctOutput == input[keys[rangeindex]] && len(result) > 0)
-//@     invariant strictlyAsc(result) && (len(result) > 0 ==> result[len(result)-1] <= keys[rangeindex] && input[result[len(result)-1]] == input[keys[rangeindex]] && result[0] == keys[0])
+//@   loop 1 "for _, key := range"
+//@     invariant -1 <= rangeindex && rangeindex < len(rangeseq) && (arrayOf(result) == 0 || arrayOf(result) >= old(W)) && (len(result) == 0 ==> cap(result) == 0)
+//@     invariant strictlyAsc(rangeseq) && (len(result) == 0 || arrayOf(result) != arrayOf(rangeseq))
+//@     invariant forall j :: 0 <= j && j < len(rangeseq) ==> rangeseq[j] in input
+//@     invariant forall k :: k in input ==> exists j :: 0 <= j && j < len(rangeseq) && rangeseq[j] == k
+//@     invariant (rangeindex == -1 ==> lastDistinctOutput == -1 && len(result) == 0) && (rangeindex >= 0 ==> lastDistinctOutput == input[rangeseq[rangeindex]] && len(result) > 0)
+//@     invariant strictlyAsc(result) && (len(result) > 0 ==> result[len(result)-1] <= rangeseq[rangeindex] && input[result[len(result)-1]] == input[rangeseq[rangeindex]] && result[0] == rangeseq[0])
 //@     invariant forall j :: 0 <= j && j < len(result) ==> result[j] in input
 //@     invariant forall j :: 1 <= j && j < len(result) ==> input[result[j-1]] != input[result[j]]
-//@     invariant forall i, j :: 0 <= i && i <= rangeindex && 0 <= j && j < len(result) && result[j] <= keys[i] && (j == len(result)-1 || keys[i] < result[j+1]) ==> input[result[j]] == input[keys[i]]
+//@     invariant forall i, j :: 0 <= i && i <= rangeindex && 0 <= j && j < len(result) && result[j] <= rangeseq[i] && (j == len(result)-1 || rangeseq[i] < result[j+1]) ==> input[result[j]] == input[rangeseq[i]]
 
 // ---- ghost state of the I/O model -------------------------------------------------------------
 //@ ghost var fileInt gmap[string]int
